@@ -210,6 +210,9 @@ pub struct BatchResult {
     pub harness_errors: Vec<String>,
     pub nontrivial_idx: Vec<u64>,
     pub max_events: u64,
+    /// runs re-executed a second time in the same process / how many produced another digest
+    pub reexec_sampled: u64,
+    pub reexec_mismatch: u64,
 }
 
 pub fn run_batch(
@@ -234,6 +237,8 @@ pub fn run_batch(
         harness_errors: Vec<String>,
         nontrivial_idx: Vec<u64>,
         max_events: u64,
+        reexec_sampled: u64,
+        reexec_mismatch: u64,
     }
     let shared = Mutex::new(Shared {
         digests: HashSet::new(),
@@ -245,6 +250,8 @@ pub fn run_batch(
         harness_errors: Vec::new(),
         nontrivial_idx: Vec::new(),
         max_events: 0,
+        reexec_sampled: 0,
+        reexec_mismatch: 0,
     });
     std::thread::scope(|sc| {
         for wk in 0..workers.max(1) {
@@ -272,6 +279,17 @@ pub fn run_batch(
                         let _ = std::fs::write(j, format!("{}\n", i));
                     }
                     let out = execute(prop, Choices::generate(seed), os_seed, thorough, false);
+                    if i % 97 == 3 && out.violation.is_none() && out.harness_error.is_none() {
+                        // the same seed again in the same process: one seed must be one execution.
+                        // A different digest means hidden state (caches, pools, thread-locals) in the
+                        // code under test or in the harness; reported as a note, not as a violation.
+                        let again = execute(prop, Choices::generate(seed), os_seed, thorough, false);
+                        let mut sh = shared.lock().unwrap();
+                        sh.reexec_sampled += 1;
+                        if again.digest != out.digest {
+                            sh.reexec_mismatch += 1;
+                        }
+                    }
                     local_eval += 1;
                     local_max_events = local_max_events.max(out.stats.events);
                     local_stats.merge(&out.stats);
@@ -325,6 +343,8 @@ pub fn run_batch(
         harness_errors: sh.harness_errors,
         nontrivial_idx: sh.nontrivial_idx,
         max_events: sh.max_events,
+        reexec_sampled: sh.reexec_sampled,
+        reexec_mismatch: sh.reexec_mismatch,
     }
 }
 
@@ -575,6 +595,7 @@ pub fn write_evidence(
             "probes": probes,
             "key_probes_stuck_at_zero": zero_probes,
             "states_reached": br.states,
+            "same_seed_reexecuted_in_process": {"sampled": br.reexec_sampled, "digest_mismatches": br.reexec_mismatch},
             "states_measure": "per-property abstraction, see rule",
             "components": { "real": prop.real_components(), "stub": prop.stub_components() },
             "known_findings_seen": known,
